@@ -40,6 +40,8 @@ var vC06Docs = []string{
 	vC06Cycle(3, false),
 	// 11: the same cycle with an ENUM in the project and all three members faulty, defined in reverse order
 	vC06Cycle(7, true),
+	// 12: two faults found by two different final checks (response without a body, request without a body) and an INFO without a title
+	"JSIGHT 0.3\nGET /a\n  200\n    Headers\n    {\"h\": 1}\nPOST /b\n  Request\n    Headers\n    {\"h\": 2}\n  200 any\n",
 }
 
 func vC06Cycle(faults int, enum bool) string {
